@@ -1191,3 +1191,19 @@ Proof.
   - destruct H' as (A & _ & B & B'). auto.
 Qed.
 
+
+(* ------------------------------------------------------------------------------------------------ *)
+(* as long as the client itself does not give up a connection (no TarsClient.Close, no idle close) it only closes
+   connections the peer has closed (or announced to close: the harness logs both as EPeerClose) *)
+Lemma Inv4_run ls : forall s s', InvX s -> Inv4 s -> Forall (fun l => client_close l = false) ls -> run true s ls = Some s' -> Inv4 s'.
+Proof.
+  induction ls as [|l r IH]; cbn [run]; intros s s' I J F R. { now injection R as <-. }
+  destruct (step true s l) as [s1|] eqn:E; [|discriminate]. inversion F as [|? ? Fl Fr]; subst.
+  eapply (IH s1); eauto. { eapply InvX_step; eauto. } destruct I as ((_ & _ & HN) & I3). eapply Inv4_step; eauto.
+Qed.
+
+Theorem dead_only_after_peer_close ls s g : run true init ls = Some s -> Forall (fun l => client_close l = false) ls ->
+  dead (gens s g) = true -> peerc (gens s g) = true /\ In g (lpc s).
+Proof.
+  intros R F D. destruct (Inv4_run ls init s InvX_init Inv4_init F R) as (_ & J2 & J3 & _). split; auto.
+Qed.
